@@ -336,6 +336,22 @@ fn check_single(ctx: &mut Ctx, qs: &[MQ], c: &Canon, h: &str) {
 }
 
 impl Check for C05 {
+    fn fixed_cases(_tier: Tier, _seed: u64) -> Vec<Case> {
+        // large documents (canonical output of 100-300 KiB): the output must still be one sorted
+        // line per quad that reads back isomorphic to the input
+        [(1200usize, 1u64, 0u8, 2u8), (2500, 2, 1, 3)]
+            .into_iter()
+            .map(|(n, salt, cont_a, cont_b)| Case {
+                input: Input::Quads(crate::gen::bulk_quads(n, salt, true)),
+                salt,
+                swaps: vec![3, 1, 4, 1, 5, 9, 2, 6],
+                cont_a,
+                cont_b,
+                twin: Twin::DropQuad(7),
+                twin_salt: salt + 1,
+            })
+            .collect()
+    }
     fn stall_secs(_tier: Tier) -> Option<u64> {
         Some(900)
     }
